@@ -887,6 +887,31 @@ func runLife(p *pki, cfg, seq string) (lifeObs, bool) {
 					o.Problems = append(o.Problems, fmt.Sprintf("%s: %d clients are being served, the registry holds %d", tag, want, len(s.srv.Conns())))
 				}
 				o.Steps = append(o.Steps, fmt.Sprintf("%c:%d", op, len(s.srv.Conns())))
+			case 'j', 'h':
+				// j: a TLS client whose certificate the common-name rule refuses (the handshake itself succeeds);
+				// h: a client whose TLS handshake fails (self-signed certificate).  Neither may be served or stay registered.
+				if !running || s.secure == 0 {
+					o.Steps = append(o.Steps, string(op)+":skip")
+					continue
+				}
+				bad := p.wrongName.tlsCert()
+				if op == 'h' {
+					bad = p.selfSigned.tlsCert()
+				}
+				raw, err := net.DialTimeout("tcp", addr(s.secure), ioTimeout)
+				if err == nil {
+					tc := tls.Client(raw, p.clientConfig(&bad))
+					tc.SetDeadline(time.Now().Add(ioTimeout))
+					if tc.Handshake() == nil && servedOn(tc, "") {
+						o.Problems = append(o.Problems, tag+": a client that must be refused was served")
+					}
+					tc.Close()
+				}
+				want := len(clients)
+				if !settle(func() bool { return len(s.srv.Conns()) == want }, 2*time.Second) {
+					o.Problems = append(o.Problems, fmt.Sprintf("%s: %d clients are being served, the registry holds %d", tag, want, len(s.srv.Conns())))
+				}
+				o.Steps = append(o.Steps, fmt.Sprintf("%c:%d", op, len(s.srv.Conns())))
 			case 'd':
 				if len(clients) == 0 {
 					o.Steps = append(o.Steps, "d:skip")
